@@ -89,6 +89,7 @@ pub fn c20_memory_dangling_frame() {
     mem.verif_push_frame();
     let _q = mem.allocate(8);
     let read: bool = any();
+    cover!(true, "reached_the_dangling_access");
     if read {
         let _ = mem.read_slice(p, 8);
     } else {
